@@ -1031,6 +1031,74 @@ func genTemplate(r *rand.Rand, which int) []Op {
 		late := st(dt, sl, y)
 		late.Status = "Expired"
 		return []Op{aw(1, k), st(dt, sl, x), aw(2, k), second, aw(3, k), late, st(odt, sl+1, other), aw(4, k)}
+	case 17, 18, 19, 20, 21, 22, 23, 24, 25, 26, 27, 28:
+		// A query is blocked; a FAILING multi-entry Store writes the awaited key as a partial effect (nobody is
+		// woken); a later SUCCESSFUL Store of that type - of the same key and value (variant 0), of other keys
+		// only (variant 1), or an idempotent re-store of a set that was stored before (variant 2) - does not make
+		// any map grow, and must still wake the reader. Per duty type; proposer sets cannot fail half-way (at most
+		// one entry), there the failing Store is the two-entry set.
+		typ, variant := (which-17)/3, (which-17)%3
+		var dt string
+		var pre []Op          // stores needed so that a later entry can clash
+		var kE, oE, bad Entry // entry of the awaited key, entry of another key, entry that makes a set fail
+		var kK, oK Key
+		switch typ {
+		case 0:
+			dt = "att"
+			pre = []Op{st("att", sl, att(4, 3, 4, 1, 1, 1))}
+			kE, oE, bad = att(1, 1, 1, 1, 1, 1), att(2, 2, 2, 1, 1, 1), att(4, 3, 4, 2, 1, 1)
+			kK, oK = Key{K: "att", Slot: sl, A: 1}, Key{K: "att", Slot: sl, A: 2}
+		case 1:
+			dt = "pro"
+			kE, oE, bad = Entry{K: "pro", Slot: sl, Blk: 1}, Entry{K: "pro", Slot: sl + 1, Blk: 2}, Entry{K: "pro", Slot: sl, Blk: 3}
+			kK, oK = Key{K: "pro", Slot: sl}, Key{K: "pro", Slot: sl + 1}
+		case 2:
+			dt = "agg"
+			kE, oE = Entry{K: "agg", Slot: sl, Data: 1, Comm: 1, Bits: 1}, Entry{K: "agg", Slot: sl, Data: 2, Comm: 0, Bits: 1}
+			bad = Entry{K: "pro", Slot: sl, Blk: 1} // wrong type: the only way an aggregator set fails
+			kK, oK = Key{K: "agg", Slot: sl, A: 1, B: 1}, Key{K: "agg", Slot: sl, A: 2, B: 0}
+		default:
+			dt = "con"
+			pre = []Op{st("con", sl, Entry{K: "con", Cs: []Con{{Slot: sl, Sub: 0, BRoot: 1, Var: 1}}})}
+			kE = Entry{K: "con", Cs: []Con{{Slot: sl, Sub: 1, BRoot: 1, Var: 1}}, Single: r.Intn(2) == 0}
+			oE = Entry{K: "con", Cs: []Con{{Slot: sl, Sub: 2, BRoot: 1, Var: 1}}}
+			bad = Entry{K: "con", Cs: []Con{{Slot: sl, Sub: 0, BRoot: 1, Var: 2}}}
+			kK, oK = Key{K: "con", Slot: sl, A: 1, B: 1}, Key{K: "con", Slot: sl, A: 2, B: 1}
+		}
+		// failing stores that (very likely) leave entry e behind
+		failing := func(e Entry) []Op {
+			if dt == "con" && r.Intn(2) == 0 { // plural contributions: stored in slice order, deterministic
+				return []Op{st("con", sl, Entry{K: "con", Cs: append(append([]Con{}, e.Cs...), bad.Cs...)})}
+			}
+			var ops []Op
+			for i := 0; i < 3; i++ { // map iteration order: e is written unless the failing entry comes first every time
+				ops = append(ops, st(dt, sl, e, bad))
+			}
+			return ops
+		}
+		slotOf := func(e Entry) int {
+			if e.K == "pro" {
+				return e.Slot
+			}
+			return sl
+		}
+		one := func(e Entry) Op { return st(dt, slotOf(e), e) }
+		s := append([]Op{}, pre...)
+		switch variant {
+		case 0:
+			s = append(s, aw(1, kK), aw(2, kK))
+			s = append(s, failing(kE)...)
+			s = append(s, one(kE), aw(3, kK), one(kE))
+		case 1:
+			s = append(s, aw(1, kK), aw(2, oK))
+			s = append(s, failing(kE)...)
+			s = append(s, one(oE), one(kE), aw(3, kK))
+		default:
+			s = append(s, one(kE), aw(1, oK), one(kE))
+			s = append(s, failing(oE)...)
+			s = append(s, one(kE), aw(2, oK), one(oE))
+		}
+		return s
 	default: // undisciplined deadliner: a store accepted after the expiry serves other data (why C06 needs C16)
 		p1 := Entry{K: "pro", Slot: sl, Blk: 1}
 		p2 := Entry{K: "pro", Slot: sl, Blk: 2}
@@ -1038,7 +1106,7 @@ func genTemplate(r *rand.Rand, which int) []Op {
 	}
 }
 
-const nTemplates = 17
+const nTemplates = 29
 
 func classify(labels []string) (blocked, clashes int) {
 	waiting := map[string]bool{}
